@@ -14,7 +14,8 @@ import (
 )
 
 var sqlrTypes = []string{"INTEGER", "BIGINT", "int", "REAL", "DOUBLE PRECISION", "FLOAT", "NUMERIC(10,2)", "BOOLEAN", "bool",
-	"TIMESTAMP", "DATETIME", "DATE", "DATETIME2", "TEXT", "VARCHAR(20)", "CHAR(3)", "BLOB", "", "POINT", "INTERVAL", "JSON"}
+	"TIMESTAMP", "DATETIME", "DATE", "DATETIME2", "TEXT", "VARCHAR(20)", "CHAR(3)", "BLOB", "", "POINT", "INTERVAL", "JSON",
+	"TINYINT", "TINYINT(1)", "tinyint unsigned", "SMALLINT", "MEDIUMINT", "INT8", "DECIMAL(5,2)", "BIT"}
 
 // natural scan kind of a declared type, mirroring the documented table (harness-side, for generation only)
 func declKind(t string) string {
